@@ -57,7 +57,7 @@ func stackOf(c *engine.Context) *stackModel {
 		}
 		// phase 1: all paths, to learn which types each pop can see
 		m.SummariseActions(execute, vals)
-		in := stackty.NewInterp(m, pm.src, p.Roles.NodeIface)
+		in := stackty.NewInterp(m, pm.run, p.Roles.NodeIface)
 		in.Run()
 		// phase 2: implicit defaults of type switches over values that were popped from slots
 		// whose producer types are all handled are infeasible
@@ -89,7 +89,7 @@ func stackOf(c *engine.Context) *stackModel {
 			return out, true
 		}
 		m2.SummariseActions(execute, vals)
-		in2 := stackty.NewInterp(m2, pm.src, p.Roles.NodeIface)
+		in2 := stackty.NewInterp(m2, pm.run, p.Roles.NodeIface)
 		in2.Debug = os.Getenv("VERIF_DEBUG_STACK") != ""
 		in2.Run()
 		sm.m = m2
@@ -159,6 +159,7 @@ func ruleSTUniform(c *engine.Context) *report.Rule {
 		return r
 	}
 	p := c.P
+	requireRunning(r, pegOf(c))
 	for _, pr := range uniqSorted(append([]string(nil), sm.m.Problems...)) {
 		r.Undischarged("value-stack model: "+pr, "-", "%s", pr)
 	}
